@@ -5,6 +5,7 @@ package c01
 
 import (
 	"fmt"
+	"os"
 	"testing"
 
 	"verif/mc/chain"
@@ -27,6 +28,23 @@ func TestCheck(t *testing.T) {
 	r := ev.Start("C01", "model_checking")
 	r.SetBudget(ev.Pick(r, 170, 2700))
 	var states, transitions int64
+
+	// ---- layer 3 (interleave_test.go): reads at every commit point of a Store/Finalise on one long-lived node.
+	// It runs first: it is cheap, and the hash-heavy trie layer must not be able to starve it on a loaded machine.
+	{
+		s, tr := interleavedLayer(r)
+		states += int64(s)
+		transitions += int64(tr)
+		if os.Getenv("VERIF_C01_ONLY_L3") != "" { // development aid: layer 3 alone (use with VERIF_OUT=<scratch dir>)
+			r.Set("states", states)
+			r.Set("transitions", transitions)
+			r.Set("traces_validated_against_impl", transitions)
+			r.Set("distinct_nontrivial", states)
+			r.Set("rule", "layer 3 only (development run)")
+			r.Incomplete("VERIF_C01_ONLY_L3: layers 1 and 2 skipped")
+			r.Finish()
+		}
+	}
 
 	// ---- layer 1a: all kv-maps of small tries, both implementations, both hash functions ----
 	for _, im := range impls {
@@ -132,7 +150,8 @@ func TestCheck(t *testing.T) {
 	r.Set("distinct_nontrivial", states)
 	r.Set("rule", "layer 1: explicit-state search over ALL kv-maps of height-2/3 tries x every single write (and every ordered pair inside one commit) on a trie re-opened from the persisted image, "+
 		"both trie implementations, Pedersen and Poseidon: root == independent reference commitment AND persisted node image == image first recorded for that kv-map; all ordered insert/delete sequences over crafted 251-bit keys; pairs / triples of 251-bit keys with every common-prefix length 0..250 (three bit patterns) inserted in every order and deleted in every subset; "+
-		"temporary commitment tries for 0..17 items on both backends. layer 2: BFS over chains of state diffs through the real Blockchain (both backends, 0.13.2 / 0.14.0 / 0.14.1), stored root and the commitment recomputed from the stored tries == reference commitment of the dictionary state; two-blocks-vs-merged-block root equality")
+		"temporary commitment tries for 0..17 items on both backends. layer 2: BFS over chains of state diffs through the real Blockchain (both backends, 0.13.2 / 0.14.0 / 0.14.1), stored root and the commitment recomputed from the stored tries == reference commitment of the dictionary state; two-blocks-vs-merged-block root equality. "+
+		"layer 3: every path of D state diffs on ONE long-lived Blockchain (Store and Finalise, both backends) x every block with a successor x every durable write of that call (a trie reader of the head state runs right before it is applied) x every reader (class / contract / storage tries: Hash, Get, Prove; flat reads): reader answers, acceptance and roots of all later blocks, final store image == the run without reads")
 	r.Assume = append(r.Assume, "Pedersen/Poseidon primitives and felt arithmetic trusted (pinned by the suite's known-answer tests)", "Go map iteration order inside juno is not controlled")
 	r.Finish()
 }
